@@ -42,7 +42,7 @@ type Replay struct {
 	K    int    `json:"racers,omitempty"`
 }
 
-var namePool = []string{"pa", "pb", "Pz", "p_1", "pa.x", "zz", "a-b", "B", "pab", "p/q"}
+var namePool = []string{"pa", "pb", "Pz", "p_1", "pa.x", "zz", "a-b", "B", "pab", "p/q", "s", "S"}
 var validFrom = []string{"", "a=b", "{x=y}", "name=app1 OR name=app2", "name=App1 OR name=app2", "A=b", "a=B"}
 var validWhere = []string{"", "msg contains \"err\"", "msg contains \"ERR\"", "msg CONTAINS \"err\"", "ts > \"2019-01-01T00:00:00Z\" AND msg prefix abc"}
 var invalidCond = []string{"a=", "((", "msg contains", "{"}
